@@ -116,4 +116,28 @@ PROPS = {
         'quick': {'verus': [('vdaf_guards', 'unit')], 'kani': []},
         'thorough': {},
     },
+    'C12': {
+        'level': 'other',
+        'explanation': 'Decided (Kani, the real generic ping-pong routines instantiated with a nondeterministic aggregator that records its arguments: any number of rounds, any failure): per-transition contracts of leader_initialized, helper_initialized, continued (both roles), PingPongContinuation::evaluate (pure, repeatable) and the continuation/message codecs: message-kind refusals, combiner called exactly once with shares in aggregator order, continuation carries exactly the VDAF values, no output share on any error path. Not decided: the whole-exchange equivalence with a broadcast run (follows from the per-transition contracts by induction on rounds; not mechanised).',
+        'trusted': [],
+        'quick': {'verus': [], 'kani': [{'files': KC + ['c12_pingpong.rs'],
+                                         'harnesses': ['pp_continued_contract', 'pp_helper_initialized_contract', 'pp_leader_initialized_contract', 'pp_evaluate_contract', 'pp_continuation_codec'], 'timeout': 600}]},
+        'thorough': {'kani': [{'files': KC + ['c12_pingpong.rs'], 'harnesses': ['pp_message_codec'], 'timeout': 1500}]},
+    },
+    'C04': {
+        'level': 'other',
+        'explanation': 'Decided: (Kani, real code) finish_sketch computes A*z0+B for the leader and adds z0^2-z1-z2 for the helper only; next_message guards (length 1 and non-zero sum => Err; lengths other than 1/3 or mismatched => Err); verifier_shares_to_message requires exactly two shares of the same field; verify_next accepts only the four matching (state, message) pairs and releases an output share only from RoundTwo+Done. (Verus) over these contracts: an honest one-hot sketch sums to zero, and a programmed value d leaves the residue (d^2-d)*r^2. Not decided: that every non-one-hot or mis-authenticated vector is rejected except with small probability (Schwartz-Zippel), IDPF public-share canonical decoding (bitvec).',
+        'trusted': ['finish_sketch harness uses the memoised contract stub for Field64 multiplication'],
+        'quick': {'verus': [('sketch_lemma', 'unit')],
+                  'kani': [{'files': KC + ['f255_util.rs', 'c04_poplar1.rs'], 'harnesses': ['pop_finish_sketch_formula', 'pop_next_message_guards', 'pop_vs2m_guards', 'pop_verify_next_variants'], 'timeout': 600}]},
+        'thorough': {'kani': [{'files': KC + ['f255_util.rs', 'c04_poplar1.rs'], 'harnesses': ['pop_corr_shares_formula'], 'timeout': 2400}]},
+    },
+    'C03': {
+        'level': 'other',
+        'explanation': 'Decided: the honest-case sketch identity (Verus lemma over the finish_sketch / correlated-randomness contracts: for a one-hot 0/1 vector with the programmed authenticator the two verifier shares sum to zero, and likewise for the all-zero vector), the finish_sketch and next_message contracts those lemmas are stated over (Kani, real code), and exact-length / no-overflow arithmetic of Poplar1AggregationParam::encoded_len for every u16 level. Not decided: IDPF path correctness over all levels (C06 per level), composition over prefix sets and the heavy-hitters driver (bitvec), the level arithmetic inside verify_init (whole-function harness out of reach; the u16 overflow there was found by review and repaired, see known_findings.json).',
+        'trusted': [],
+        'quick': {'verus': [('sketch_lemma', 'unit')],
+                  'kani': [{'files': KC + ['f255_util.rs', 'idpf_util.rs', 'c07_codec.rs', 'c07_poplar1.rs', 'c04_poplar1.rs'], 'harnesses': ['pop_finish_sketch_formula', 'pop_next_message_guards', 'pop_agg_param_encoded_len'], 'timeout': 600}]},
+        'thorough': {'kani': [{'files': KC + ['f255_util.rs', 'c04_poplar1.rs'], 'harnesses': ['pop_corr_shares_formula'], 'timeout': 2400}]},
+    },
 }
